@@ -470,6 +470,9 @@ def doc_twins(ctx, res, c):
                         try:
                             t.merge_styles_from(other)
                             tag = "merge_from_the_other_twin"
+                            # the merge brings the giver's pictures (back): they belong to this twin again
+                            live = DL.memory_state(t)
+                            m.deleted -= {p_ for p_ in m.deleted if p_ in live}
                         except ValueError:
                             tag = "skipped"  # the giver refers to a picture this history deleted: nothing to judge
                 else:
